@@ -21,7 +21,7 @@ TIERS = {
     "quick": {"targets": 320, "runs": 600, "ref_seeds": [0, 1, 20260924, 4242], "fresh_checks": 6, "redo": 8, "min_budget": 24,
               "chunk": 12, "budget_s": 420, "torchlib": False},
     "thorough": {"targets": 4000, "runs": 24000, "ref_seeds": [0, 1, 2, 3, 7, 1234567, 20260924, 4294967295], "fresh_checks": 40,
-                 "redo": 250, "min_budget": 60, "chunk": 25, "budget_s": 3300, "torchlib": True, "per_family": 10, "external_families": 23, "composed_models": 100, "op_families": 200},
+                 "redo": 250, "min_budget": 60, "chunk": 25, "budget_s": 3300, "torchlib": True, "per_family": 10, "ort_models": 200, "ort_per_file": 40, "external_families": 23, "composed_models": 100, "op_families": 200},
 }
 REF_PRE_SKEW = [0, 3, 5, 1, 2, 7, 11, 13]   # pre-import heap skew of the i-th reference environment
 PRE_SKEWS = [0, 0, 1, 2, 3, 5, 7, 11, 13, 101]
@@ -201,6 +201,42 @@ def gen_targets(seed: int, tier: dict, pools) -> list[dict]:
             add(with_id({"kind": "convert", "model": m, "family": f, "target": target if target != 21 else 23, "fallback": False, "api": "pass"}))
         add(with_id({"kind": "convert", "model": m, "family": f, "target": r.choice([19, 20, 22]), "fallback": r.chance(0.5),
                      "api": r.choice(["proto", "ir"])}))
+    # the ORT fusion tests' models (attention / MHA / SDPA / rotary embedding / cos-sin cache / skip-normalization ...):
+    # through the rule sets of the module the test file is named after, through that module's fuse_* entry points, and
+    # through the package's drivers (fuse_xformers / optimize_for_ort), all of which run module-level rule singletons
+    ort_models = list(pools.ort_script_models)
+    rng.sub("ortorder").shuffle(ort_models)
+    ort_by_file: dict = collections.defaultdict(list)
+    for m in ort_models:
+        ort_by_file[m["family"]].append(m)
+    ort_files = sorted(ort_by_file)
+    rng.sub("ortfiles").shuffle(ort_files)
+    n_ort = 0
+    for fam in ort_files:
+        for m0 in ort_by_file[fam][:tier.get("ort_per_file", 3)]:
+            if n_ort >= tier.get("ort_models", 12):
+                break
+            n_ort += 1
+            m = {k: v for k, v in m0.items() if k != "family"}
+            mod = fam.split(":", 1)[1]
+            for suf in ("_extended_test.py", "_unit_test.py", "_test.py", ".py"):
+                if mod.endswith(suf):
+                    mod = mod[:-len(suf)]
+                    break
+            mod = {"_rotary_embedding_models": "rotary_embedding", "fuse_xformers": "mha"}.get(mod, mod)
+            r = rng.sub("ortcfg", n_ort)
+            cfgs = [("rewrite", {"rules": "ortfuse:fuse_xformers", "api": "apply", "pre_optimize": True}),
+                    ("rewrite", {"rules": "ortfuse:optimize_for_ort", "api": "apply"})]
+            if mod != "fused_matmul_rule_sets":
+                cfgs.append(("rewrite", {"rules": "ortall:" + mod, "api": "apply", "pre_optimize": True}))
+                if r.chance(0.5):
+                    cfgs.append(("rewrite", {"rules": "ortfn:" + mod, "api": "apply", "pre_optimize": True}))
+            if mod == "rotary_embedding":
+                cfgs.append(("rewrite", {"rules": "ortall:cos_sin_cache", "api": "apply", "pre_optimize": True}))
+            _, kind, params = r.weighted([(c, c[0]) for c in OBJECT_CONFIGS])
+            cfgs.append((kind, params))
+            for kind, params in cfgs:
+                add(with_id({"kind": kind, "model": m, "family": fam, **copy.deepcopy(params)}))
     script_slots = [x for x in pools.script_models if "/fusion/" in x[0]]
     rng.sub("scriptorder").shuffle(script_slots)
     script_slots = script_slots[:tier.get("script_models", 8)]
@@ -308,7 +344,7 @@ def gen_runs(seed: int, tier: dict, targets: list[dict], repo: str, failing: set
     fams = sorted(k for k, v in by_family.items() if k and len(v) >= 2)
     objs = sorted(k for k, v in by_obj.items() if len(v) >= 3 and k != "translate")
     kinds_all = [k for k in ("translate", "optimize", "rewrite", "convert") if by_kind[k]]
-    gfams = [f for f in fams if f.startswith(("gen:", "op:"))]
+    gfams = [f for f in fams if f.startswith(("gen:", "op:", "ortm:"))]
     if "gen:external" in gfams:
         gfams += ["gen:external"] * 2   # three turns in the rotation: its template needs both halves to be relevant
     custom_scripts = [t for t in by_kind["translate"] if "CUSTOM = Opset(" in t.get("src", "")]
